@@ -411,7 +411,7 @@ h_shrink_push!(c18_t_shrink_push_bvd4n64, 7, bvd4(64));
 h_shrink_push!(c18_t_shrink_push_bvdyn4n127, 7, bvdyn4(127));
 h_reserve_resize!(c18_q_reserve_resize_bvd1n60_k100_m130, 8, bvd1(60), 100, 130);
 h_reserve_resize!(c18_q_reserve_resize_bvd1n64_k64_m65, 8, bvd1(64), 64, 65);
-h_reserve_resize!(c18_q_reserve_resize_bvd1n64_k200_m10, 8, bvd1(64), 200, 10);
+h_reserve_resize!(c18_q_reserve_resize_bvd1n64_k190_m10, 8, bvd1(64), 190, 10);
 h_reserve_resize!(c18_q_reserve_resize_bvd2n100_k1_m192, 8, bvd2(100), 1, 192);
 h_reserve_resize!(c18_q_reserve_resize_bvfixn100_k100_m130, 8, bvfix(100), 100, 130);
 h_reserve_resize!(c18_q_reserve_resize_bvfixn128_k1_m100, 8, bvfix(128), 1, 100);
@@ -420,21 +420,21 @@ h_reserve_resize!(c18_t_reserve_resize_bvd3n192_k64_m0, 8, bvd3(192), 64, 0);
 h_reserve_resize!(c18_t_reserve_resize_bvfixn10_k200_m129, 8, bvfix(10), 200, 129);
 h_reserve_append!(c18_q_reserve_append_bvd1n60_k100_f8x2n10, 12, bvd1(60), 100, f8x2(10));
 h_reserve_append!(c18_q_reserve_append_bvd1n64_k1_f64x2n128, 12, bvd1(64), 1, f64x2(128));
-h_reserve_append!(c18_q_reserve_append_bvd2n100_k200_bvd1n64, 12, bvd2(100), 200, bvd1(64));
+h_reserve_append!(c18_q_reserve_append_bvd2n100_k150_bvd1n64, 12, bvd2(100), 150, bvd1(64));
 h_reserve_append!(c18_q_reserve_append_bvfixn100_k100_f8x2n16, 12, bvfix(100), 100, f8x2(16));
 h_reserve_append!(c18_t_reserve_append_bvd1n1_k64_bvfixn127, 12, bvd1(1), 64, bvfix(127));
 h_reserve_append!(c18_t_reserve_append_bvfixn128_k64_f64x1n64, 12, bvfix(128), 64, f64x1(64));
 h_reserve_arith!(c18_q_reserve_sub_bvd1n40_k200_f64x3, 6, bvd1(40), 200, f64x3(anylen(192)), -=, sub);
 h_reserve_arith!(c18_q_reserve_sub_bvd1n64_k65_f64x3, 6, bvd1(64), 65, f64x3(anylen(192)), -=, sub);
 h_reserve_arith!(c18_q_reserve_add_bvd1n40_k200_f64x3, 6, bvd1(40), 200, f64x3(anylen(192)), +=, add);
-h_reserve_arith!(c18_q_reserve_sub_bvd2n100_k100_f8x3, 10, bvd2(100), 100, f8x3(anylen(24)), -=, sub);
+h_reserve_arith!(c18_q_reserve_sub_bvd1n10_k60_f8x3, 10, bvd1(10), 60, f8x3(anylen(24)), -=, sub);
 h_reserve_arith!(c18_q_reserve_sub_bvd1n40_k200_bvd3, 6, bvd1(40), 200, bvd3(anylen(192)), -=, sub);
-h_reserve_arith!(c18_q_reserve_sub_bvdyn1n40_k200_f64x3, 6, bvdyn1(40), 200, f64x3(anylen(192)), -=, sub);
+h_reserve_arith!(c18_q_reserve_sub_bvdyn3n40_k100_f64x3, 6, bvdyn3(40), 100, f64x3(anylen(192)), -=, sub);
 h_reserve_arith!(c18_q_reserve_sub_bvfixn100_k100_f64x3, 6, bvfix(100), 100, f64x3(anylen(192)), -=, sub);
 h_reserve_arith!(c18_t_reserve_add_bvd2n128_k1_f64x3, 6, bvd2(128), 1, f64x3(anylen(192)), +=, add);
 h_reserve_arith!(c18_t_reserve_sub_bvd1n1_k64_f64x2, 6, bvd1(1), 64, f64x2(anylen(128)), -=, sub);
 h_reserve_arith!(c18_t_reserve_add_bvd1n40_k200_bvdyn3, 6, bvd1(40), 200, bvdyn3(anylen(192)), +=, add);
-h_reserve_arith!(c18_t_reserve_sub_bvd2n65_k192_f16x2, 8, bvd2(65), 192, f16x2(anylen(32)), -=, sub);
+h_reserve_arith!(c18_t_reserve_sub_bvd2n20_k190_f16x2, 8, bvd2(20), 190, f16x2(anylen(32)), -=, sub);
 
 // the auto type: inline -> heap (reserve) -> inline (shrink_to_fit), and heap vectors that stay heap
 h_bv_round_trip!(c18_q_roundtrip_bvfixn0_k129, 7, bvfix(0), 129);
@@ -445,4 +445,4 @@ h_bv_round_trip!(c18_q_roundtrip_bvdyn3n129_k0, 7, bvdyn3(129), 0);
 h_bv_round_trip!(c18_q_roundtrip_bvdyn3n130_k62, 7, bvdyn3(130), 62);
 h_bv_round_trip!(c18_t_roundtrip_bvfixn64_k65, 7, bvfix(64), 65);
 h_bv_round_trip!(c18_t_roundtrip_bvfixn1_k200, 7, bvfix(1), 200);
-h_bv_round_trip!(c18_t_roundtrip_bvdyn2n100_k100, 7, bvdyn2(100), 100);
+h_bv_round_trip!(c18_t_roundtrip_bvdyn3n100_k50, 7, bvdyn3(100), 50);
